@@ -76,9 +76,7 @@ impl FormMultipartData {
             let string = StringExt::filter_ascii_control_characters(&string);
             let string = StringExt::truncate_new_line_carriage_return(&string);
 
-            let _current_string_is_boundary =
-                string.replace(SYMBOL.hyphen, SYMBOL.empty_string)
-                    .ends_with(&boundary.replace(SYMBOL.hyphen, SYMBOL.empty_string));
+            let _current_string_is_boundary = FormMultipartData::is_boundary_line(string.as_bytes(), &boundary);
 
             if !_current_string_is_boundary {
                 let message = format!("Body in multipart/form-data request needs to start with a boundary, actual string: '{}'", string);
@@ -110,9 +108,7 @@ impl FormMultipartData {
             let string = StringExt::filter_ascii_control_characters(&string);
             current_string_is_empty = string.trim().len() == 0;
 
-            let _current_string_is_boundary =
-                string.replace(SYMBOL.hyphen, SYMBOL.empty_string)
-                    .ends_with(&boundary.replace(SYMBOL.hyphen, SYMBOL.empty_string));
+            let _current_string_is_boundary = FormMultipartData::is_boundary_line(string.as_bytes(), &boundary);
 
             if _current_string_is_boundary {
                 let message = "There is at least one missing body part in the multipart/form-data request";
@@ -168,20 +164,8 @@ impl FormMultipartData {
 
             bytes_read = bytes_read + bytes_offset as i128;
 
-            let escaped_dash_boundary = boundary.replace(SYMBOL.hyphen, SYMBOL.empty_string);
-
-            current_string_is_boundary = false;
-            // the boundary is compared with hyphens removed (as in the checks above), so remove them from the line as well,
-            // otherwise a boundary with hyphens in the middle is never recognized
-            let line_without_hyphens : Vec<u8> = b.iter().filter(|byte| **byte != b'-').cloned().collect();
-            let b : &[u8] = &line_without_hyphens;
-            if escaped_dash_boundary.len() > 0 && b.len() >= escaped_dash_boundary.len() {
-                let boxed_sequence = FormMultipartData::find_subsequence(b, escaped_dash_boundary.as_bytes());
-                if boxed_sequence.is_some() {
-                    current_string_is_boundary = true;
-                    _boundary_position = boxed_sequence.unwrap();
-                }
-            }
+            // a delimiter is a whole line: optional leading hyphens, the boundary, optional closing hyphens
+            current_string_is_boundary = FormMultipartData::is_boundary_line(b, &boundary);
 
             if !current_string_is_boundary {
                 part.body.append(&mut buf.clone());
@@ -240,6 +224,38 @@ impl FormMultipartData {
         Ok(boundary.to_string())
     }
 
+    // the boundary may be given with or without its leading hyphens (Content-Type parameter vs delimiter line),
+    // so leading hyphens are ignored on both sides; everything else has to be equal, the closing delimiter
+    // carries two more hyphens at the end
+    fn is_boundary_line(line: &[u8], boundary: &str) -> bool {
+        let mut end = line.len();
+        while end > 0 && (line[end - 1] == b'\n' || line[end - 1] == b'\r') {
+            end = end - 1;
+        }
+        let mut start = 0;
+        while start < end && line[start] == b'-' {
+            start = start + 1;
+        }
+        let line_without_leading_hyphens = &line[start..end];
+        let boundary_without_leading_hyphens = boundary.trim_start_matches(SYMBOL.hyphen).as_bytes();
+
+        // a boundary made of hyphens only: the delimiter is a line of at least as many hyphens (an empty line is not)
+        if boundary_without_leading_hyphens.len() == 0 {
+            return end > 0 && start == end && end >= boundary.len();
+        }
+
+        if line_without_leading_hyphens == boundary_without_leading_hyphens {
+            return true;
+        }
+
+        let length = line_without_leading_hyphens.len();
+        let is_closing_delimiter = length >= 2
+            && &line_without_leading_hyphens[length - 2..] == b"--"
+            && &line_without_leading_hyphens[..length - 2] == boundary_without_leading_hyphens;
+        is_closing_delimiter
+    }
+
+    #[allow(dead_code)]
     fn find_subsequence(haystack: &[u8], needle: &[u8]) -> Option<usize> {
         haystack.windows(needle.len()).position(|window| window == needle)
     }
